@@ -967,13 +967,9 @@ caption_command(vbi_decoder *vbi, struct caption *cc,
 			set_cursor(ch, 1, row);
 
 		if (c2 & 0x10) {
-			col = ch->col;
-
-			for (i = (c2 & 14) * 2; i > 0 && col < COLUMNS - 1; i--)
-				ch->line[col++] = cc->transp_space[chan >> 2];
-
-			if (col > ch->col)
-				ch->col = ch->col1 = col;
+			/* 47 CFR 15.119 (h)(1)(i): PACs are non-spacing,
+			   the indent only moves the cursor. */
+			ch->col = ch->col1 = 1 + (c2 & 14) * 2;
 
 			ch->attr.italic = FALSE;
 			ch->attr.foreground = VBI_WHITE;
@@ -1268,10 +1264,12 @@ caption_command(vbi_decoder *vbi, struct caption *cc,
 		switch (c2) {
 		case 0x21 ... 0x23:	/* Misc Control Codes, Tabs	001 c111  010 00xx */
 // not verified
-			col = ch->col;
+			/* 47 CFR 15.119 (e)(1)(ii): Tab Offsets move the cursor,
+			   the cells skipped over are not affected. */
+			col = ch->col + (c2 & 3);
 
-			for (i = c2 & 3; i > 0 && col < COLUMNS - 1; i--)
-				ch->line[col++] = cc->transp_space[chan >> 2];
+			if (col > COLUMNS - 2)
+				col = COLUMNS - 2;
 
 			if (col > ch->col)
 				ch->col = ch->col1 = col;
